@@ -12,7 +12,7 @@ CFG = dict(
                               "reflect (Index / Field / Elem aliasing, Set copying, Interface() detaching, Append element by element) is modelled, not verified",
                               "harness/c04_ref.go (a Go transcription of G) only guides the generator; it is compared with compiled Go on every history"],
     level_text="Coq theorems (unbounded: all operation sequences of the modelled grammar, all states, all growth policies, under the decidable side condition wf_ops; refutation witnesses for its negation) about executable models of yaegi's frame slots (Y) and of Go's value/reference semantics (G); Y is tied to the source on every run by a behavioural correspondence evaluated inside Coq on generated histories (also inside the defect regions), G is validated against the compiled program on the same histories; every history is also compared yaegi-vs-compiled directly.",
-    level_note="An escape stream (6 histories, 24 cells: argument shape incl. nested-call results x callee letting its parameter escape by address / closure x call site executed three times in one activation) is compared yaegi-vs-compiled only; callees returning the address of their parameter are also part of the Coq grammar. A fixed boundary stream (30 histories) hits every cell of the slicing cross product (operand kind x lo x hi x max against 0/len/cap) and of the append cross product (element-wise / spread / self / overlapping x destination nil / cap 0 / empty cap>0 / room / no room / full) in every run. Trusted: Coq kernel + vm_compute, no axioms; harness; Go toolchain as the reference. The mechanisms are modelled by hand and tied by correspondence (about 300 histories, 5-60 steps, whole pool printed after every step, per quick run).",
+    level_note="A return stream (returned operand x deferred update after the return statement, named results included, call sites executed twice per activation) is compared yaegi-vs-compiled only; a growth grid (element type x full capacity 0..5 x 1/2/3/5 values x element-wise/spread) is in the Coq grammar. An escape stream (6 histories, 24 cells: argument shape incl. nested-call results x callee letting its parameter escape by address / closure x call site executed three times in one activation) is compared yaegi-vs-compiled only; callees returning the address of their parameter are also part of the Coq grammar. A fixed boundary stream (30 histories) hits every cell of the slicing cross product (operand kind x lo x hi x max against 0/len/cap) and of the append cross product (element-wise / spread / self / overlapping x destination nil / cap 0 / empty cap>0 / room / no room / full) in every run. Trusted: Coq kernel + vm_compute, no axioms; harness; Go toolchain as the reference. The mechanisms are modelled by hand and tied by correspondence (about 300 histories, 5-60 steps, whole pool printed after every step, per quick run).",
     technique="Coq refinement proof by mutual induction over operations and expressions + model/implementation correspondence evaluated in Coq + differential runs against compiled Go",
     assumptions=["interface{} elements / fields / map values / variables holding int, string, struct, pointer and slice values are part of the Coq grammar (boxed value trees); constructs outside the Coq grammar (methods, closures, var e interface{} = x declarations, channels, defer, named results, tuple assignment of interface operands) are covered by the yaegi-vs-compiled comparison only",
                  "programs whose result depends on an evaluation order Go leaves unspecified are not generated (call destinations are variables / fields / constant indices; map-entry destinations take pure right-hand sides)"],
